@@ -741,6 +741,116 @@ theorem heap_reachable_owned (ops : List Op) : ∀ (h : Heap), Owned h → Owned
 
 example : ((Heap.init 3).run [.copy 1 0, .underlay 1 0, .shift 0 (.by_ 1), .binop 2 .add 0 1]).classes = [0, 1, 2] := by decide
 
+/-! ## 6c. Every variant request; the code's rejections; a Series on the right-hand side (statement audit, last round) -/
+
+/-- **A read returns the map for every variant request the code accepts** — bare or listed indices, negative ones, slices:
+whatever `_resolve_variants` produces, `vs` being the indices numpy normalises it to (`Normalises`). (`read_is_abs` is the
+special case of non-negative indices.) -/
+theorem read_is_abs_general (s : Series) (hW : WF s) (serials : List Int) (vids : List Int) (vs : List Nat)
+    (h : Normalises s.nv vids vs) :
+    s.getData serials vids = .ok (serials.map (fun t => vs.map (fun v => s.abs t v))) :=
+  getData_eq_abs_general s hW serials vids vs h
+
+example : Normalises 3 [-1, 0, -3] [2, 0, 0] := by
+  refine ⟨rfl, ?_⟩
+  intro i c v h1 h2
+  match i with
+  | 0 => simp at h1 h2; subst h1; subst h2; decide
+  | 1 => simp at h1 h2; subst h1; subst h2; decide
+  | 2 => simp at h1 h2; subst h1; subst h2; decide
+  | (k + 3) => simp at h1
+
+/-- a read rejects what the code rejects: a variant index outside `[-nv, nv)` raises, whatever the dates -/
+theorem read_rejects (s : Series) (serials : List Int) (vids : List Int) (h : ∃ c ∈ vids, normIdx s.nv c = none) :
+    s.getData serials vids = .error .badInput :=
+  getData_rejects s serials vids h
+
+/-- a write rejects what the code rejects: when the elementary writes are undefined (`Map.writeAll = none`: a variant index
+numpy rejects, a column whose length fits neither the dates nor 1) and the call is not the "no dates, no data" no-op,
+`set_data` raises — the converse of `write_refines_map` -/
+theorem write_rejects (s : Series) (serials : List Int) (data : DataArg) (vids : List Int)
+    (hne : ¬ (serials.isEmpty = true ∧ data.isEmptyData = true))
+    (h : Map.writeAll s.abs s.nv serials data vids 0 = none) :
+    s.setData serials data vids = .error .badInput :=
+  setData_rejects s serials data vids hne h
+
+example : Map.writeAll (fun _ _ => none) 2 [8080, 8081] (.array [[some 1, some 2, some 3]]) [0] 0 = none ∧
+    Map.writeAll (fun _ _ => none) 2 [8080] (.scalar (some 1)) [2] 0 = none := by decide
+
+/-- mixing frequencies in the dates of a write or a read is rejected (as `t - base` raises in `_get_date_positions`) -/
+theorem dates_mixed_frequencies_rejected (s : Series) (ps : List Period) (data : DataArg) (vars : VarArg)
+    (h : ∃ p ∈ ps, p.freq ≠ s.freqFor ps) :
+    s.setDataP ps data vars = .error .mixedFreq ∧ s.getDataP ps vars = .error .mixedFreq :=
+  dates_mixed_rejected s ps data vars h
+
+/-- **a Series on the right-hand side of a write** (`x[dates] = y`, serial level, any list of distinct periods): the values
+are read from the source period by period and written with the exhaust-then-last rule; everything else is unchanged -/
+theorem write_from_series (s y r : Series) (serials : List Int) (hnd : serials.Nodup) (hne : serials ≠ [])
+    (hI : Inv s) (hy : Inv y) (hynv : 0 < y.nv) (d : List Row)
+    (hd : y.getData serials (allVids y) = .ok d)
+    (h : s.setData serials (.array (transpose y.nv d)) (allVids s) = .ok r) :
+    (∀ t v, t ∉ serials → r.abs t v = s.abs t v) ∧
+    (∀ (i : Nat) (t : Int) (v : Nat), serials[i]? = some t → v < s.nv → r.abs t v = y.abs t (min v (y.nv - 1))) :=
+  abs_setFromSeries s y r serials hnd hne hI hy hynv d hd h
+
+/-- **`x[dates] = y` end to end, relative dates included** (composition of `resolveDates` on the receiver, the read from the
+source and the write; hypotheses on the inputs only): see `step_set_from_series` in the lemma file for the proof -/
+theorem set_from_series_end_to_end (p p' : Pool) (out : Output) (i j : Nat) (dates : DatesArg) (s y : Series)
+    (serials : List Int) (hs : p.get i = .ok s) (hy : p.get j = .ok y) (hIs : Inv s) (hIy : Inv y)
+    (st sy : Int) (hst : s.start = some st) (hsy : y.start = some sy) (hf : y.freq = s.freq) (hynv : 0 < y.nv)
+    (hres : s.resolveDates dates = .ok (serials.map (fun x => (⟨s.freq, x⟩ : Period))))
+    (hnd : serials.Nodup) (hne : serials ≠ [])
+    (h : step p (.set i dates .all (.series j)) = .ok (p', out)) :
+    ∃ r, p'[i]? = some r ∧ (∀ t v, t ∉ serials → r.abs t v = s.abs t v) ∧
+      (∀ (k : Nat) (t : Int) (v : Nat), serials[k]? = some t → v < s.nv → r.abs t v = y.abs t (min v (y.nv - 1))) :=
+  step_set_from_series p p' out i j dates s y serials hs hy hIs hIy st sy hst hsy hf hynv hres hnd hne h
+
+/-- `x[...] = y` with `x` on 8080…8082 and `y` on 8081…8084: `...` is resolved against the receiver (three periods), `y` is read
+there (missing at 8080), and the all-missing first period is trimmed away -/
+example : (match step [⟨.Q, some 8080, 1, [[some 1], [some 2], [some 3]]⟩, ⟨.Q, some 8081, 1, [[some 7], [some 8], [some 9], [some 10]]⟩]
+      (.set 0 .all .all (.series 1)) with | .ok (p', _) => some p' | .error _ => none)
+    = some [⟨.Q, some 8081, 1, [[some 7], [some 8]]⟩, ⟨.Q, some 8081, 1, [[some 7], [some 8], [some 9], [some 10]]⟩] := by
+  decide +kernel
+
+/-! ## 6d. Concrete non-trivial instances of the hypotheses (the operations succeed on real data, arithmetic included) -/
+
+/-- `binop_pointwise`: overlapping spans with a hole -/
+example : (⟨.Q, some 8080, 1, [[some 1], [some 2], [some 3]]⟩ : Series).binop BinFn.add.eval ⟨.Q, some 8081, 1, [[some 5], [none], [some 7]]⟩
+    = .ok ⟨.Q, some 8081, 1, [[some 7]]⟩ := by decide +kernel
+
+/-- `overlay_by_span_broadcast` / `underlay_by_span_broadcast`: 2 vs 1 variants, the hole of `other` inside its span wins -/
+example : (⟨.Q, some 8080, 2, [[some 1, some 2], [some 3, some 4], [some 5, some 6]]⟩ : Series).overlay ⟨.Q, some 8081, 1, [[none], [some 9], [some 8]]⟩
+    = .ok ⟨.Q, some 8080, 2, [[some 1, some 2], [none, none], [some 9, some 9], [some 8, some 8]]⟩ ∧
+    (⟨.Q, some 8081, 1, [[some 9], [none]]⟩ : Series).underlay ⟨.Q, some 8080, 2, [[some 1, some 2], [some 3, some 4], [some 5, some 6], [some 7, some 8]]⟩
+    = .ok ⟨.Q, some 8080, 2, [[some 1, some 2], [some 9, some 9], [none, none], [some 7, some 8]]⟩ := by decide +kernel
+
+/-- `hstackS_pointwise`: different spans, 1 + 2 variants -/
+example : hstackS [⟨.Q, some 8080, 1, [[some 1], [some 2]]⟩, ⟨.Q, some 8081, 2, [[some 3, none], [some 5, some 6]]⟩]
+    = .ok ⟨.Q, some 8080, 3, [[some 1, none, none], [some 2, some 3, none], [none, some 5, some 6]]⟩ := by decide +kernel
+
+/-- `stat_pointwise`, `moving_window_pointwise`: sums with a missing cell and with an infinite value -/
+example : (⟨.Q, some 8080, 2, [[some 1, some 3], [none, some .pinf], [some 2, some .ninf]]⟩ : Series).rowStat .sum
+      = .ok ⟨.Q, some 8080, 1, [[some 4], [none], [some .ninf]]⟩ ∧
+    (⟨.Q, some 8080, 2, [[some 1, some 3], [none, some .pinf], [some 2, some .ninf]]⟩ : Series).rowStat .nansum
+      = .ok ⟨.Q, some 8080, 1, [[some 4], [some .pinf], [some .ninf]]⟩ ∧
+    (⟨.Q, some 8080, 1, [[some 1], [some 2], [some 4], [some 8]]⟩ : Series).movWindow .sum (some (-2))
+      = .ok ⟨.Q, some 8081, 1, [[some 3], [some 6], [some 12]]⟩ := by decide +kernel
+
+/-- `extrapolate_pointwise`: the lag order matters from order 2 on — history 1, 2 and ρ = (0, 1) give 1, 2, 1 -/
+example : (⟨.Q, some 8080, 1, [[some 1], [some 2]]⟩ : Series).extrapolate [0, 1] 0 (spanList 8082 3)
+    = .ok ⟨.Q, some 8080, 1, [[some 1], [some 2], [some 1], [some 2], [some 1]]⟩ := by decide +kernel
+
+/-- `fill_missing_pointwise`: linear interpolation over a gap of two, flat beyond the last observation -/
+example : (⟨.Q, some 8080, 1, [[some 1], [none], [none], [some 4]]⟩ : Series).fillMissingP .linear
+      ((spanList 8080 5).map (fun x => (⟨.Q, x⟩ : Period)))
+    = .ok ⟨.Q, some 8080, 1, [[some 1], [some 2], [some 3], [some 4], [some 4]]⟩ := by decide +kernel
+
+/-- `clip_restricts`, `replace_where_pointwise` -/
+example : (⟨.Q, some 8080, 1, [[some 1], [none], [some 3], [some 4]]⟩ : Series).clip (some 8081) none
+      = .ok ⟨.Q, some 8081, 1, [[none], [some 3], [some 4]]⟩ ∧
+    (⟨.Q, some 8080, 1, [[some 1], [none], [some 3], [some 4]]⟩ : Series).replaceWhere (.gt 2) none
+      = ⟨.Q, some 8080, 1, [[some 1]]⟩ := by decide +kernel
+
 /-! ## 7. The refinement statement in one place -/
 
 /-- **Every operation refines the map.** The conjunction of the `abs`-level equations proved above, per op kind of `step`:
